@@ -43,7 +43,7 @@ class ImageInterpolator:
         self.image = image
         self._order = order
         self._mode = mode
-        self.cval = cval
+        self._cval = cval
         self._datafile = None
         self._n_prepad = 0  # Non-zero for 'nearest' and 'grid-constant'
         self._buildknots()
@@ -59,6 +59,20 @@ class ImageInterpolator:
         """ Order is read-only
         """
         return self._order
+
+    @property
+    def cval(self):
+        """ Value used for points outside the boundaries of the image
+        """
+        return self._cval
+
+    @cval.setter
+    def cval(self, cval):
+        changed = cval != self._cval
+        self._cval = cval
+        if changed and self._n_prepad != 0 and self.mode == 'grid-constant':
+            # the knots were pre-padded with the previous fill value
+            self._buildknots()
 
     def _buildknots(self):
         data = np.nan_to_num(self.image.get_fdata()).astype(np.float64)
